@@ -211,3 +211,7 @@ Proof.
     assert (1 - (2 * INR T' + 1 + 1) ^ 2 <> 0) by nra.
     field_simplify in E2; [|nra|nra]. nra.
 Qed.
+
+(* hypotheses of fejer2_exact_partial_lemma are satisfiable on a non-trivial instance: n = 7, T_2 *)
+Example fejer2_hyp_sat : (1 <= 7)%nat /\ (2 <= 7 - 1)%nat /\ (Nat.even 2 = false \/ 2 / 2 < f2_nsum 7 - 1)%nat.
+Proof. split; [lia|]. split; [lia|]. right. unfold f2_nsum. simpl. lia. Qed.
